@@ -586,6 +586,56 @@ def kani_native_replay(gen, bdir, hname, playback):
     return {"ran": failed or passed, "confirmed": failed, "cmd": " ".join(cmd), "transcript": txt[-2500:], "file": rp}
 
 
+def flatten_use(tree, prefix=""):
+    """'std::{a::{B, C as D}, e::F}' -> ['std::a::B', 'std::a::C as D', 'std::e::F'] (brace-aware split)."""
+    tree = tree.strip()
+    if "{" not in tree:
+        return [prefix + tree] if tree else []
+    head, rest = tree.split("{", 1)
+    depth, j = 1, 0
+    while j < len(rest) and depth:
+        depth += rest[j] == "{"; depth -= rest[j] == "}"; j += 1
+    inner = rest[:j - 1]
+    parts, d, cur = [], 0, ""
+    for ch in inner:
+        if ch == "," and d == 0:
+            parts.append(cur); cur = ""
+        else:
+            d += ch == "{"; d -= ch == "}"; cur += ch
+    parts.append(cur)
+    out = []
+    for p_ in parts:
+        out += flatten_use(p_, prefix + head)
+    return out
+
+
+def std_imports_of(relfile):
+    """All `use std|core|alloc::...;` leaf paths of a repository source file (top level only)."""
+    try:
+        text = open(os.path.join(REPO, relfile), encoding="utf-8").read()
+    except OSError:
+        return []
+    leaves = []
+    for m in re.finditer(r"(?ms)^use\s+((?:std|core|alloc)::.*?);", text):
+        leaves += flatten_use(re.sub(r"\s+", " ", m.group(1)))
+    return leaves
+
+
+def kani_missing_fns(gpath, bdir):
+    """Compile-only probe (no harness matches): names of free functions the generated file calls but does not define."""
+    env = dict(os.environ)
+    env["RUSTFLAGS"] = "--edition 2021"
+    td = os.path.join(bdir, "td_probe")
+    with PROC_SLOTS:
+        r = run_cmd(["kani", os.path.basename(gpath), "--harness", "verif_no_such_harness", "--target-dir", td], cwd=bdir, timeout=300, env=env)
+    subprocess.call(["rm", "-rf", td])
+    txt = r["out"] + r["err"]
+    fns = sorted(set(re.findall(r"error\[E0425\]: cannot find function `(\w+)` in this scope", txt)))
+    names = sorted(set(re.findall(r"use of undeclared type `(\w+)`", txt) + re.findall(r"cannot find (?:type|trait|struct, variant or union type|macro) `(\w+)` in this scope", txt)
+                       + re.findall(r"use of undeclared crate or module `(\w+)`", txt) + re.findall(r"use of unresolved module or unlinked crate `(\w+)`", txt)))
+    return fns, names
+
+
 def unit_kani(u, tier):
     name = u["name"]
     bdir = os.path.join(BUILD, name)
@@ -596,8 +646,48 @@ def unit_kani(u, tier):
     extract.verify_identity(gen, regions)
     gpath = os.path.join(bdir, "gen.rs")
     open(gpath, "w").write(gen)
+    # closure of the extraction: if the extracted text calls a free function that the template does not extract
+    # (typical after a refactoring that factors a helper out), fetch `fn <name>` from the same source files and retry
+    auto_added = []
+    for _round in range(3):
+        missing, missing_names = kani_missing_fns(gpath, bdir)
+        if not missing and not missing_names:
+            break
+        extra = []
+        uses = []
+        files = []
+        for r in regions:
+            if r["file"] not in files:
+                files.append(r["file"])
+        for fnname in missing:
+            for f in files:
+                try:
+                    extract.locate(extract.load(f), f"fn {fnname}")
+                except (LostAnchor, Unsupported):
+                    continue
+                extra.append(f"//@item {f} :: fn {fnname} ;; id=auto_{fnname}")
+                auto_added.append(f"{f} :: fn {fnname}")
+                break
+        # a std item the source file imports but the template does not (e.g. a new `use std::mem::ManuallyDrop`)
+        for nm in missing_names:
+            for f in files:
+                hit = [l for l in std_imports_of(f) if re.search(r"(::|\bas )%s$" % re.escape(nm), l) or l.endswith("::" + nm)]
+                if hit:
+                    uses.append(f"use {hit[0]}; // auto-import: std item imported by {f}")
+                    auto_added.append(f"use {hit[0]} (from {f})")
+                    break
+        if not extra and not uses:
+            break
+        marker = "#[cfg(kani)]\nmod harness {"
+        if marker not in tpl:
+            break
+        tpl = tpl.replace(marker, "// auto-extracted helpers / std imports (needed by extracted text, not named in the template)\n" + "\n".join(uses + extra) + "\n" + marker, 1)
+        extract._cache.clear()
+        gen, regions = extract.process(tpl, name)
+        extract.verify_identity(gen, regions)
+        open(gpath, "w").write(gen)
     trusted_found = scan_trusted(gen)
-    out = {"unit": name, "backend": "kani", "regions": [{k: r[k] for k in ("id", "file", "selector", "sha256", "lines")} for r in regions],
+    out = {"unit": name, "backend": "kani", "auto_extracted": auto_added, "regions": [{k: r[k] for k in ("id", "file", "selector", "sha256", "lines")} for r in regions],
            "obligations": [], "status": "ok", "notes": [], "cmd": "kani gen.rs --harness <h> --exact " + " ".join(u.get("kani", {}).get("flags", [])) + "  (failed harnesses re-run with -Z concrete-playback --concrete-playback=print)",
            "trusted_found": [f"{w} @gen.rs:{ln}: {t}" for (w, ln, t) in trusted_found]}
     flags = u.get("kani", {}).get("flags", [])
